@@ -502,7 +502,17 @@ def graph_shapes() -> dict[str, dict[str, list[str]]]:
 		'flat3': {'app.a': [], 'app.b': [], 'lib.a': []},
 		'flatsub': {'app.x': [], 'app.sub.x': [], 'lib.x': [], 'lib.sub.x': []},
 		'nestpkg': {'app.x': [], 'lib.app.x': [], 'lib.y': []},
+		# dotted paths contained in one another (prefix, suffix, infix, sub-package), the longer ones listed first (MODULE_ORDER)
+		'subnames': {'app.shape_utils': [], 'app.xshape': [], 'app.shape': [], 'app.other': []},
+		'subnames_pkg': {'lib.app.m1': [], 'app.m10': ['app.m1'], 'app.sub.m1': [], 'app.m1': [], 'app.m': []},
 	}
+
+
+# explicit module list order (= order of input_globs, one file per entry); other shapes use one recursive glob per package
+MODULE_ORDER: dict[str, list[str]] = {
+	'subnames': ['app.shape_utils', 'app.xshape', 'app.shape', 'app.other'],
+	'subnames_pkg': ['lib.app.m1', 'app.m10', 'app.sub.m1', 'app.m1', 'app.m'],
+}
 
 
 def ident(module: str) -> str:
@@ -591,8 +601,8 @@ class RealCase:
 		self.variants = dict(variants)
 		self.packages = sorted({m.split('.')[0] for m in self.graph})
 		root = os.path.realpath(ctx.tmpdir('tranp-c06-'))
-		self.proj = tproj.Project(root, package='', output_dirs=dirs, output_language=lang, input_globs=[f'{p}/**/*.py' for p in self.packages],
-			config_extra=self.force_line(force_cfg))
+		globs = [m.replace('.', '/') + '.py' for m in MODULE_ORDER[shape]] if shape in MODULE_ORDER else [f'{p}/**/*.py' for p in self.packages]
+		self.proj = tproj.Project(root, package='', output_dirs=dirs, output_language=lang, input_globs=globs, config_extra=self.force_line(force_cfg))
 		self.force_cfg = force_cfg
 		self.vers = {'app': versions()[0], 'py2cpp': versions()[1]}
 		for m in self.graph:
@@ -953,6 +963,9 @@ def diagnose_fixpoint(ctx: Ctx, case: RealCase, a: tuple[str, dict[str, bytes], 
 			f"{(case.vers['app'], case.vers['py2cpp'])}; the plain run does not regenerate it; {detail}")
 	own_unchanged = recorded.get('module') == {'hash': case.token(m), 'path': m}
 	snap = case.written_with.get(path, {})
+	if not own_unchanged and snap.get(m) != case.source(m):
+		return 'stale-own-output', (f"module {m}: its own source was edited since {rel} was written (recorded hash {(recorded.get('module') or {}).get('hash')}, "
+			f'md5 of the current source {case.token(m)}), yet the plain run does not regenerate it; {detail}')
 	changed_deps = sorted(d for d in closure(case.graph, m) if snap.get(d) != case.source(d))
 	if own_unchanged and changed_deps:
 		return 'stale-dependant-output', (f"module {m}: own source hash unchanged, imported module(s) {changed_deps} edited since {rel} was written; "
@@ -966,6 +979,28 @@ def _first_diff(x: bytes, y: bytes) -> str:
 		if p != q:
 			return f'{p.strip()[:120]!r} vs {q.strip()[:120]!r}'
 	return f'{len(la)} vs {len(lb)} lines'
+
+
+def header_hash_wrong(case: RealCase, files: dict[str, bytes]) -> str:
+	"""The header a forced run writes records the md5 of the module's own current source and the module's path (state sentence of the
+	property) — checked with the harness' own reading of the first line, for modules that do not share their output path."""
+	from rogw.tranp.data.meta.header import MetaHeader
+	by_path: dict[str, list[str]] = {}
+	for m in case.graph:
+		by_path.setdefault(case.real_path(m), []).append(m)
+	for r, ms in by_path.items():
+		if len(ms) != 1 or not r.startswith('ok '):
+			continue
+		rel = os.path.relpath(common.unhx(r[3:]), case.proj.root)
+		if rel not in files:
+			continue
+		try:
+			recorded = json.loads(first_line(files[rel]).split(f'{MetaHeader.Tag}: ', 1)[1])
+		except Exception as e:  # noqa: BLE001
+			return f'{rel} has no readable header ({type(e).__name__})'
+		if recorded.get('module') != {'hash': case.token(ms[0]), 'path': ms[0]}:
+			return f"{rel} records module {recorded.get('module')}, module {ms[0]} has source md5 {case.token(ms[0])}"
+	return ''
 
 
 def probe_fixpoint(ctx: Ctx, case: RealCase, again: list[str] | None = None) -> tuple[tuple[str, dict[str, bytes], list[str]], tuple[str, dict[str, bytes], list[str]]]:
@@ -1056,6 +1091,11 @@ def fixpoint_history(ctx: Ctx, rng: random.Random, res: SearchResult, hist: Coun
 				res.findings.append(Finding(key=f'run-fails:{b[0]}', what=f'forced run over a valid project fails with {b[0]} (plain run: {a[0]})', replay=replay))
 				hist[f'finding:run-fails'] += 1
 				break
+			wrong = header_hash_wrong(case, b[1])
+			if wrong:
+				res.findings.append(Finding(key='header-hash-wrong', what=f'after a forced run {wrong}', replay=replay))
+				hist['finding:header-hash-wrong'] += 1
+				break
 			if again and (a[0], a[1]) == (b[0], b[1]):
 				# files that need no regeneration are left untouched: right after a plain run nothing needs regeneration
 				by_path: dict[str, list[str]] = {}
@@ -1086,6 +1126,14 @@ def fixpoint_history(ctx: Ctx, rng: random.Random, res: SearchResult, hist: Coun
 	case.dispose()
 
 
+DIRECTED_PLANS: list[dict[str, Any]] = [
+	{'search': 'fixpoint', 'shape': 'subnames', 'variants': {'app.shape_utils': 0, 'app.xshape': 1, 'app.shape': 2, 'app.other': 3}, 'dirs': ['./out'], 'lang': 'cpp:h',
+		'ops': [['run', 0], ['edit', 'app.shape', 3]]},
+	{'search': 'fixpoint', 'shape': 'subnames_pkg', 'variants': {'lib.app.m1': 0, 'app.m10': 5, 'app.sub.m1': 2, 'app.m1': 3, 'app.m': 1}, 'dirs': ['out'], 'lang': 'cpp:h',
+		'ops': [['run', 1], ['edit', 'app.m', 2], ['edit', 'app.sub.m1', 0]]},
+]
+
+
 def search_fixpoint(ctx: Ctx) -> SearchResult:
 	rng = ctx.sub_rng('fixpoint')
 	res = SearchResult('files_after(history + [run]) == files_after(history + [run -f]): both runs on clones of one project state (sources, outputs, caches)')
@@ -1096,6 +1144,9 @@ def search_fixpoint(ctx: Ctx) -> SearchResult:
 		for rec in load_corpus():
 			if rec.get('search') == 'fixpoint':
 				fixpoint_history(ctx, rng, res, hist, seen, rec, False, 0, budget)
+		# directed histories that every run executes: module names contained in one another, the shorter one edited after a run
+		for plan in DIRECTED_PLANS:
+			fixpoint_history(ctx, rng, res, hist, seen, plan, False, 0, budget)
 		i = 0
 		while budget[0] > 0:
 			# graphs without imports: every output depends on its own source only — here the law must hold exactly
